@@ -215,32 +215,45 @@ Proof.
   - apply (bi_len s HI).
 Qed.
 
-Lemma ab_add_link_inv s src dirp nm : BInv s -> BInv (fst (bstep_add_link s src dirp nm)).
+Lemma ab_add_cat_name_inv s b dirp nm : BInv s -> bboot s = Some b -> BInv (fst (add_cat_name s b dirp nm)).
+Proof.
+  intros HI Hb. unfold add_cat_name, brefuse. cbv zeta.
+  destruct (snd (add_record (bl s) dirp nm (lnext (bl s)) (linodes (bl s)) 0)) eqn:Hacc; [|exact HI].
+  cbn [fst]. apply ab_add_name_inv; [exact HI|exact Hacc|lia|rewrite Hb; reflexivity|rewrite Hb; reflexivity|].
+  pose proof (bi_cat s HI) as HC. rewrite Hb in HC. destruct HC as (C1 & C2 & C3 & C4).
+  cbn [cat_ok_of cat_recs bcat binos]. split; [destruct (cat_recs b); [tauto|discriminate]|].
+  split; [|split; assumption]. intros j Hj. apply in_app_or in Hj.
+  destruct Hj as [Hj|[<-|[]]].
+  - destruct (C2 j Hj). split; [lia|assumption].
+  - split; [lia|]. destruct (bi_fresh s HI (lnext (bl s))) as [_ H]; [lia|exact H].
+Qed.
+
+Lemma ab_add_link_inv fx s src dirp nm : BInv s -> BInv (fst (bstep_add_link fx s src dirp nm)).
 Proof.
   intros HI. unfold bstep_add_link, brefuse, lift, with_l.
   destruct (lsubtree src (lroot (bl s))) as [[on i ost|on odl okids]|] eqn:Hsrc; try exact HI.
   assert (Hi : (i < lnext (bl s))%nat).
   { destruct (le_lt_dec (lnext (bl s)) i) as [H|H]; [|exact H].
     destruct (bi_fresh s HI i H) as [H0 _]. pose proof (lsubtree_ref i src _ _ _ Hsrc). lia. }
-  destruct (has_ino i (linodes (bl s)));
-    match goal with |- context [snd ?r] => destruct (snd r) eqn:Hacc end; try exact HI; cbn [fst];
-    (apply ab_add_name_inv; [exact HI|exact Hacc|lia|reflexivity|reflexivity|
-                             apply ab_cat_ok_weaken, (bi_cat s HI)]).
+  assert (Hplain : forall ino, (ino <= lnext (bl s))%nat ->
+    BInv (fst (if snd (add_record (bl s) dirp nm ino (linodes (bl s)) 0)
+               then ({| bl := fst (add_record (bl s) dirp nm ino (linodes (bl s)) 0); bboot := bboot s;
+                        bbits := bbits s; bwreck := bwreck s |}, Acc)
+               else (s, Ref)))).
+  { intros ino Hino. destruct (snd (add_record (bl s) dirp nm ino (linodes (bl s)) 0)) eqn:Hacc; [|exact HI].
+    cbn [fst]. apply ab_add_name_inv; [exact HI|exact Hacc|exact Hino|reflexivity|reflexivity|
+                                       apply ab_cat_ok_weaken, (bi_cat s HI)]. }
+  destruct (has_ino i (linodes (bl s))); [apply Hplain; lia|].
+  destruct (bboot s) as [b|] eqn:Hb; [|apply Hplain; lia].
+  destruct (fx && mem i (cat_recs b)); [apply ab_add_cat_name_inv; assumption|].
+  apply Hplain. lia.
 Qed.
 
 Lemma ab_add_cat_link_inv s dirp nm : BInv s -> BInv (fst (bstep_add_cat_link s dirp nm)).
 Proof.
   intros HI. unfold bstep_add_cat_link, brefuse.
   destruct (bboot s) as [b|] eqn:Hb; [|exact HI].
-  destruct (cat_recs b) as [|c0 cr] eqn:Hc; [exact HI|].
-  destruct (snd (add_record (bl s) dirp nm (lnext (bl s)) (linodes (bl s)) 0)) eqn:Hacc; [|exact HI].
-  cbn [fst]. apply ab_add_name_inv; [exact HI|exact Hacc|lia|rewrite Hb; reflexivity|rewrite Hb; reflexivity|].
-  pose proof (bi_cat s HI) as HC. rewrite Hb in HC. destruct HC as (C1 & C2 & C3 & C4).
-  cbn [cat_ok_of cat_recs bcat binos]. split; [rewrite <- Hc; destruct (cat_recs b); discriminate|].
-  split; [|split; assumption]. intros j Hj. rewrite <- Hc in Hj. apply in_app_or in Hj.
-  destruct Hj as [Hj|[<-|[]]].
-  - destruct (C2 j Hj). split; [lia|assumption].
-  - split; [lia|]. destruct (bi_fresh s HI (lnext (bl s))) as [_ H]; [lia|exact H].
+  destruct (cat_recs b) as [|c0 cr] eqn:Hc; [exact HI|]. apply ab_add_cat_name_inv; assumption.
 Qed.
 
 (* ---- add_directory / rm_directory --------------------------------------------------------------------- *)
